@@ -77,7 +77,7 @@ NANO_LIKE = {"NANO_CACHE_DIR": "/nonexistent/cache", "NANO_OPT_LEVEL": "3", "NAN
 NOISE = dict(("C19_NOISE_%03d" % i, ("v%d-" % i) + "x" * (i % 37)) for i in range(200))
 LONG_TMP = "t_" + "long-tmp-dir-component-" * 7            # 163 characters
 
-KINDS = ["nvm", "genc", "virt_diag", "nanoc_diag", "nanoc_json"]
+KINDS = ["nvm", "genc", "virt_diag", "nanoc_diag", "nanoc_json", "again"]
 
 _STATE = {}
 
@@ -164,7 +164,7 @@ def build_corpus(tier, tree, lnk, work):
                 if _accepted(tree, lnk, work, cand):
                     break
             progs.append(cand)
-    quick = ["c_structs", "c_floats", "c_strpool", "k_hashmap", "k_data", "k_builtins", "mm_one", "mm_two", "g_big",
+    quick = ["c_structs", "c_floats", "c_strpool", "k_hashmap", "k_data", "k_builtins", "mm_one", "mm_two", "mm_extern", "mm_rebind", "g_big",
              "d_typeerr", "d_noshadow", "d_shadowfail", "b_layer_S_head", "b_layer_D_head"]
     names = [p["name"] for p in progs]
     if len(set(names)) != len(names):
@@ -204,6 +204,8 @@ def _norm_text(b, subs):
         if old:
             b = b.replace(old, new)
     b = re.sub(rb"(?m)^(-- .+? )-{3,}( |$)", rb"\1---\2", b)
+    # the C compiler's own messages name nanoc's temporary C file, whose name carries the process id
+    b = re.sub(rb"nanoc_\d+_", b"nanoc_<pid>_", b)
     return b
 
 
@@ -258,6 +260,12 @@ def run_cell(tree_root, lnk, program, cfg, rundir, keep=False, timeout=120):
             cmd = pre + [exe, src, "--emit-nvm", "-o", outp]
         else:
             envx["NANO_CC"] = "true"
+            # multi-module programs on a small sub-lattice use a REAL C compiler (caching wrapper), so that module
+            # objects and whatever else a full compilation leaves in the directory exist when the same command is
+            # run again in place; private cwd only (the object cache lives under the cwd)
+            if (len(program["files"]) > 1 and _STATE.get("ccenv") and cfg.get("run") == 2 and cfg["env"] == "scrubbed" and cfg["tmpdir"] == "short"
+                    and cfg["aslr"] == "on" and cfg["perturb"] is None and cfg["cwd"] != "tree"):
+                envx.update(_STATE["ccenv"])
             outp = os.path.join(outdir, "a.bin")
             cmd = pre + [exe, src, "-S", "-o", outp, "--llm-diags-json", os.path.join(outdir, "diags.json")]
         rc, so, se = common.run(cmd, timeout=timeout, cwd=cwd, envx=envx, tmp=tmpd)
@@ -277,6 +285,22 @@ def run_cell(tree_root, lnk, program, cfg, rundir, keep=False, timeout=120):
             obs["genc"] = None if g is None else _norm_genc(g, spelled_dir.encode())
             j = _read(os.path.join(outdir, "diags.json"))
             obs["nanoc_json"] = None if j is None else _norm_text(j, subs)
+        # "compiling the same source files twice": in the repeated-run half of the lattice the same command is run
+        # again IN PLACE (same directories, whatever the first compilation left behind - object caches, temporary
+        # files - is there now) and must produce the same bytes and the same diagnostics
+        if cfg.get("run") == 2:
+            rc2, so2, se2 = common.run(cmd, timeout=timeout, cwd=cwd, envx=envx, tmp=tmpd)
+            diag2 = b"exit=%s\n--stdout--\n%s\n--stderr--\n%s" % (str(rc2).encode(), _norm_text(so2, subs), _norm_text(se2, subs))
+            if tool == "nano_virt":
+                pairs = [("nvm", obs["nvm"], _read(outp)), ("virt_diag", obs["virt_diag"], diag2)]
+            else:
+                g2 = _read(src_abs + ".genC")
+                pairs = [("genc", obs["genc"], None if g2 is None else _norm_genc(g2, spelled_dir.encode())), ("nanoc_diag", obs["nanoc_diag"], diag2)]
+            for kname, v1, v2 in pairs:
+                if v1 != v2:
+                    obs["again"] = (obs.get("again", b"") + b"%s differs when the same command is run again in the same directory (first difference at byte %s)\n"
+                                    % (kname.encode(), str(first_diff(v1 or b"", v2 or b"")).encode()))
+    obs.setdefault("again", b"same")
     if keep:
         return obs
     shutil.rmtree(rundir, ignore_errors=True)
@@ -506,6 +530,16 @@ def explore(rep, tree, lnk, work, programs, configs_of, label):
                 classes.setdefault(table[pi][ci][kind], []).append(ci)
             stats["artefacts"] += len(cfgs)
             rep.count("traces_validated_against_impl", len(cfgs))
+            if kind == "again":
+                bad = [ci for ci in range(len(cfgs)) if table[pi][ci][kind] != (common.sha(b"same"), 4)]
+                if bad:
+                    obs = run_cell(tree.root, lnk, program, cfgs[bad[0]], os.path.join(work, "again", program["name"]), keep=True)
+                    rep.violation("again:%s:%s" % (program["name"], obs["again"][:30].decode(errors="replace")),
+                                  dict([("config.json", json.dumps(cfgs[bad[0]], indent=1)), ("what.txt", obs["again"].decode(errors="replace"))] +
+                                       [(fn, txt) for fn, txt in program["files"].items()]),
+                                  "%s: %s (%d of %d repeated-run configurations; first: %s)" % (program["name"], obs["again"].decode(errors="replace").strip().replace("\n", "; "), len(bad), len(cfgs), describe_cfg(cfgs[bad[0]])),
+                                  "# compile the program twice in the same directory with the same command and compare the outputs")
+                continue
             if len(classes) == 1:
                 continue
             order = sorted(classes.values(), key=lambda l: (-len(l), l[0]))
@@ -525,6 +559,10 @@ def run(tier):
     work = os.path.join(common.scratch(), "c19")
     os.makedirs(work, exist_ok=True)
     tree, lnk = _prepare(work)
+    from .. import langrun
+    cclang = langrun.Lang(tree, os.path.join(work, "cc"))
+    cclang.warm()
+    _STATE["ccenv"] = dict(cclang.envx)
     check_dimensions_are_real(tree, work)
     self_test_comparison(tree, lnk, work)
 
@@ -571,6 +609,7 @@ def run(tier):
         "which is the directory of the source path as spelled on the command line + the import string, is reduced to the import string; nothing else is normalised; .nvm files are compared raw",
         "diagnostics: stdout+stderr+exit status of both tools and nanoc's --llm-diags-json document; directory prefixes of the run's private paths are removed and the "
         "path-length dependent dash padding of `-- TITLE ---- file` headers is collapsed",
+        "messages of the C compiler about nanoc's temporary file `nanoc_<pid>_*.c` have the process id replaced",
         "times / process ids vary naturally between the runs (every cell is a new process at a different time); they are not controlled dimensions",
     ]
     if tier == "thorough":
